@@ -8,6 +8,7 @@ import Goat.Driver.Opt
 import Goat.Driver.Check
 import Goat.Driver.IntMap
 import Goat.Driver.CF
+import Goat.Driver.Call
 /-! goatmodel: one operation per input line, one canonical output line per operation. -/
 open Goat.Driver
 
@@ -23,6 +24,7 @@ def step (st : DriverState) (line : String) : DriverState × String :=
   | "load" :: args => (st, loadCmd args)
   | "tsort" :: args => (st, tsortCmd args)
   | "opt" :: args => (st, optCmd args)
+  | "call" :: args => (st, callCmd args)
   | "cf" :: args => (st, cfCmd args)
   | "imap" :: args => let (s, o) := imapCmd st.imap args; ({ st with imap := s }, o)
   | "verify" :: args => (st, verifyCmd args)
